@@ -326,6 +326,19 @@ def wCfgVal (c : WCtx) (st : WState) : R WState :=
 /-- `"calibTtagValid"` -/
 def nmCalibTtagValid : Name := 0x63616c69625474616756616c6964
 
+/-- repeat count held by the top-level attribute `a` (`getattr(self, anam)`), with the ESF-MEAS adjustment -/
+def namedCount (c : WCtx) (a : Name) (env : Env) : R Nat :=
+  match env.get? ⟨a, []⟩ with
+  | none => .error .attributeE
+  | some g =>
+    let bump : Bool :=
+      c.esfmeas && (match env.get? ⟨nmCalibTtagValid, []⟩ with
+                    | some v => v.truthy
+                    | none => false)
+    match g.asInt? with
+    | some i => .ok (if bump then i + 1 else i).toNat
+    | none => .error .typeE
+
 /-- number of repeats of a group -/
 def groupCount (c : WCtx) (cnt : Count) (items : List Item) (st : WState) : R Nat :=
   match cnt with
@@ -334,17 +347,7 @@ def groupCount (c : WCtx) (cnt : Count) (items : List Item) (st : WState) : R Na
     match calcNumRepeats items st.payload st.off with
     | .error e => .error e
     | .ok k => .ok k.toNat
-  | .named a =>
-    match st.env.get? ⟨a, []⟩ with
-    | none => .error .attributeE
-    | some g =>
-      let bump : Bool :=
-        c.esfmeas && (match st.env.get? ⟨nmCalibTtagValid, []⟩ with
-                      | some v => v.truthy
-                      | none => false)
-      match g.asInt? with
-      | some i => .ok (if bump then i + 1 else i).toNat
-      | none => .error .typeE
+  | .named a => namedCount c a st.env
 
 /-- `for i in range(gsiz): index[-1] = i + 1; <body>`: run `body` for indices `i, i+1, …` (`k` times) -/
 def repeatN (body : Nat → WState → R WState) : Nat → Nat → WState → R WState
